@@ -100,6 +100,29 @@ def rand_case(rng, max_o, max_s, max_f, p_incons=0.15, p_pres=0.15):
             pres = rng.choice(orders)
     c = dict(rng.choice(GRID)) if rng.random() < 0.6 else R.rand_costs(rng)
     case = {"S": S, "O": O, "costs": c, "pres": pres}
+    if rng.random() < 0.4:    # family names of different lengths / cases (the model knows families as numbers only)
+        case["fnames"] = rng.choice([1, 2])
+    if rng.random() < 0.08 and len(R.otree_leaves(O)) >= 2:
+        # different leaf syntenies whose names concatenate to the same string: families 1,2,3(,4) are called
+        # "a","b","ab"("c") in scheme 1, so [1,2,...] and [3,...] both read "ab..."
+        order = [1, 2, 3] + ([4] if rng.random() < 0.6 else [])
+        if rng.random() < 0.5:
+            order.insert(rng.randrange(len(order) + 1), 5)
+        leaves = [l for _, l in R.otree_leaves(O)]
+        rng.shuffle(leaves)
+        tail = [f for f in order if f >= 4 and rng.random() < 0.7]
+        for i, l in enumerate(leaves):
+            if i == 0:
+                keep = {1, 2} | set(tail)
+            elif i == 1:
+                keep = {3} | set(tail)
+            else:
+                keep = {f for f in order if rng.random() < 0.6} or {order[0]}
+            l["syn"] = [f for f in order if f in keep]
+        case["fnames"] = 1
+        case["pres"] = None
+    if rng.random() < 0.3:    # trees decorated with branch lengths / supports
+        case["dist"] = rng.randrange(1 << 30)
     if rng.random() < 0.25:   # same input object solved before under other costs (see recon.primed)
         case["prime"] = R.rand_costs(rng, coherent_only=False) if rng.random() < 0.6 else "topology"
     return case
@@ -115,7 +138,7 @@ def _input(case):
     M, RP = _solvers()
     B = R.primed(case, lambda i: M.sreconcile_extended_spfs(i, RP.ALL), labelled=True)
     if case.get("pres") is not None:
-        B.input.leaf_syntenies[B.otree] = [R.fam_name(f) for f in case["pres"]]
+        B.input.leaf_syntenies[B.otree] = [R.fam_name(f, B.fam_scheme) for f in case["pres"]]
     return B
 
 
@@ -134,7 +157,7 @@ def _impl(case):
             orders = [list(case["pres"])]
         else:
             from superrec2.utils.toposort import toposort_all
-            orders = [[R.fam_id(f) for f in o] for o in toposort_all(M._make_prec_graph(B.input.leaf_syntenies))]
+            orders = [[R.fam_id(f, B.fam_scheme) for f in o] for o in toposort_all(M._make_prec_graph(B.input.leaf_syntenies))]
     except Exception as e:
         return {"error": "orders:" + type(e).__name__}
     out["orders"] = sorted(orders)
@@ -154,7 +177,7 @@ def _impl(case):
         snodes = [B.snode[p] for p in R.shape_paths(case["S"])]
         for ordering in out["orders"]:
             t = M._compute_spfs_table(
-                B.input, [R.fam_name(f) for f in ordering],
+                B.input, [R.fam_name(f, B.fam_scheme) for f in ordering],
                 lambda species, _: species.traverse("postorder"),
                 lambda ordr, obj: ((subseq_complete(ordr),) if obj == B.input.object_tree else range(2 ** len(ordr))),
                 RP.ALL)
